@@ -14,6 +14,11 @@ def observe(ctx, spec):
     sh = S.shape_sig(spec)
     ctx.see("shape", "n%d/d%d/f%d/s%d" % (sh["n"] // 5 * 5, sh["depth"], min(sh["fanout"], 8), sh["sources"]))
     ctx.see("polarity", spec.get("_meta", {}).get("polarity", "?"))
+    nn = sum(1 for c in spec["comps"] if c["kind"] != "Source")
+    if nn <= 1:
+        ctx.count("degenerate_systems", "sources only" if nn == 0 else "sources and one component")
+    if any(isinstance(v, (int, float)) and not isinstance(v, bool) and v == 0 for c in spec["comps"] for k_, v in c["args"].items() if k_ != "vo"):
+        ctx.count("degenerate_systems", "a parameter given as exactly zero")
     ctx.count("phases", len(spec.get("phases") or {}))
     return kinds
 
@@ -234,7 +239,8 @@ def repo_tests_under_monitor(ctx, accept):
 
 HISTORIES = ["fresh", "fresh", "fresh", "solve_then_move_leaf", "solve_then_phase_conf", "solve_then_change_comp", "index_gaps",
              "identity_change_comp", "solve_then_retune", "solve_then_retune", "solve_then_phase_edit", "solve_then_phase_edit",
-             "solve_then_phase_edit", "solve_then_swap_leaves", "solve_then_rename", "analysed_while_built", "analysed_while_built"]
+             "solve_then_phase_edit", "solve_then_swap_leaves", "solve_then_rename", "analysed_while_built", "analysed_while_built",
+             "scratch_first_source", "scratch_first_source"]
 
 
 def build_with_history(ctx, spec, mode, hseed, kw=None, prefer=None):
@@ -493,6 +499,30 @@ def build_with_history(ctx, spec, mode, hseed, kw=None, prefer=None):
             so.change_comp(c["name"], comp=S.make_comp(ns, c), group=c.get("group", ""), rail=c.get("rail", ""))
             if c.get("phase") is not None:
                 so.set_comp_phases(c["name"], copy.deepcopy(c["phase"]))
+        ctx.count("history", mode)
+        return spec, so
+    if mode == "scratch_first_source":
+        # the System is CREATED with a scratch source (node index 0); the real first source joins through add_source.
+        # The scratch source is deleted right before a non-source component that is the ONLY child of its parent is
+        # added (else before the first non-source): that component then lives at the recycled node index 0 - an index
+        # that reads as "nothing" in truth tests such as `if childs:` / any(indices)
+        ch = S.children_map(spec)
+        first = spec["comps"][0]
+        so = ns.System(spec.get("name", "sys"), ns.KINDS["Source"]("~z0", vo=4.2, rs=0.01))
+        if rng.random() < 0.5:
+            so.add_comp("~z0", comp=ns.KINDS["ILoad"]("~z0l", ii=0.003))
+        rest = [c for c in spec["comps"] if c["kind"] != "Source"]
+        only = [c["name"] for c in rest if len(c["parents"]) == 1 and len(ch.get(c["parents"][0], [])) == 1]
+        at = (only or [c["name"] for c in rest] or [None])[0]
+        for c in spec["comps"]:
+            if c["name"] == at:
+                if rng.random() < 0.5:
+                    analyse(so)
+                so.del_comp("~z0")
+            S.add_one(so, spec, c, ns)
+        if at is None:
+            so.del_comp("~z0")
+        S.apply_phase_conf(so, spec)
         ctx.count("history", mode)
         return spec, so
     if mode == "index_gaps":
